@@ -7,6 +7,7 @@
 #ifndef JSONCONS_REFLECT_DECODE_TRAITS_HPP
 #define JSONCONS_REFLECT_DECODE_TRAITS_HPP
 
+#include <algorithm>
 #include <array>
 #include <cstddef>
 #include <cstdint>
@@ -348,7 +349,8 @@ struct decode_traits<T,
 
     static void reserve_storage(std::true_type, T& v, std::size_t new_cap)
     {
-        v.reserve(new_cap);
+        // new_cap is the length announced by the input, which need not be followed by that many items
+        v.reserve((std::min)(new_cap, std::size_t(1024)));
     }
 
     static void reserve_storage(std::false_type, T&, std::size_t)
@@ -413,7 +415,8 @@ struct decode_traits<T,
 
     static void reserve_storage(std::true_type, T& v, std::size_t new_cap)
     {
-        v.reserve(new_cap);
+        // new_cap is the length announced by the input, which need not be followed by that many items
+        v.reserve((std::min)(new_cap, std::size_t(1024)));
     }
 
     static void reserve_storage(std::false_type, T&, std::size_t)
@@ -471,7 +474,8 @@ struct decode_traits<T,
 
     static void reserve_storage(std::true_type, T& v, std::size_t new_cap)
     {
-        v.reserve(new_cap);
+        // new_cap is the length announced by the input, which need not be followed by that many items
+        v.reserve((std::min)(new_cap, std::size_t(1024)));
     }
 
     static void reserve_storage(std::false_type, T&, std::size_t)
@@ -540,7 +544,8 @@ struct decode_traits<T,
 
     static void reserve_storage(std::true_type, T& v, std::size_t new_cap)
     {
-        v.reserve(new_cap);
+        // new_cap is the length announced by the input, which need not be followed by that many items
+        v.reserve((std::min)(new_cap, std::size_t(1024)));
     }
 
     static void reserve_storage(std::false_type, T&, std::size_t)
@@ -659,7 +664,8 @@ struct decode_traits<T,
 
     static void reserve_storage(std::true_type, T& v, std::size_t new_cap)
     {
-        v.reserve(new_cap);
+        // new_cap is the length announced by the input, which need not be followed by that many items
+        v.reserve((std::min)(new_cap, std::size_t(1024)));
     }
 
     static void reserve_storage(std::false_type, T&, std::size_t)
